@@ -33,19 +33,19 @@ type FoundViolation struct {
 }
 
 type WorkerResult struct {
-	Profile     string           `json:"profile"`
-	Runs        int              `json:"runs"`
-	Steps       int              `json:"steps"`
-	Truncated   int              `json:"truncated"`
-	Violations  []FoundViolation `json:"violations"`
-	Stats       map[string]int   `json:"stats"`
-	Probes      map[string]int   `json:"probes"`
-	Hashes      []string         `json:"hashes"`
-	SchedHashes []string         `json:"sched_hashes"`
-	VirtualSec  float64          `json:"virtual_seconds"`
-	WallSec     float64          `json:"wall_s"`
-	Samples     []any            `json:"samples"`
-	Harness     []string         `json:"harness_errors"`
+	Profile     string            `json:"profile"`
+	Runs        int               `json:"runs"`
+	Steps       int               `json:"steps"`
+	Truncated   int               `json:"truncated"`
+	Violations  []FoundViolation  `json:"violations"`
+	Stats       map[string]int    `json:"stats"`
+	Probes      map[string]int    `json:"probes"`
+	Hashes      []string          `json:"hashes"`
+	SchedHashes []string          `json:"sched_hashes"`
+	VirtualSec  float64           `json:"virtual_seconds"`
+	WallSec     float64           `json:"wall_s"`
+	Samples     []any             `json:"samples"`
+	Harness     []string          `json:"harness_errors"`
 	LogHashes   map[string]string `json:"log_hashes,omitempty"`
 	Known       map[string]string `json:"known_hits,omitempty"`
 	KnownCount  map[string]int    `json:"known_count,omitempty"`
